@@ -77,7 +77,8 @@ class C11(Spec):
             "regex / wildcard patterns, shrink, exists, depth; by-value int payload), and a schedule of 10-40 thread numbers (uniform, "
             "sticky, or with thread 0's subscriptions first); callbacks contain a scheduling point, so deliveries are interleaved with "
             "the other threads' lock requests; after the schedule everything is driven to completion; non-trivial = at least one "
-            "notify and one mutating operation on different threads")
+            "notify and one mutating operation on different threads"
+            "; plus free exploration on every run (no model; interval-based monitors; 300 programs quick, 10000 thorough)")
     level_text = ("Kernel-checked over the composition of the Resource model (tree's variant, with C01's invariant) and the router model, for "
                   "every lock table satisfying the boolean condition lock_table_ok (evaluated on the table regenerated from the source), "
                   "every number of threads, every program and every schedule: while a thread is inside a notify (between its grant and "
